@@ -84,6 +84,7 @@ func (s *c13Space) valuesOf(t *mtype) []*mval {
 				out = append(out, vAO("a", x, "b", y))
 			}
 		}
+		out = append(out, vAO("a", vI(0), "a1", vI(1)), vAO("f1", vI(0), "f10", vS("a"), "f2", vB(true)), vAO("A", vI(0), "a", vI(1)))
 	case mkOpt:
 		out = append(out, vNone())
 		for _, x := range s.valuesOf(t.Elem) {
@@ -161,6 +162,13 @@ func c13Universe(tier string) *c13Space {
 			t1 = append(t1, mtObj("a", t, "b", u))
 		}
 	}
+	// field names that order differently under different sort keys (by name, by rendered
+	// "name: value" text, case-insensitively, by length)
+	t1 = append(t1,
+		mtObj("a", mtInt, "a1", mtInt), mtObj("a1", mtStr, "a", mtInt),
+		mtObj("f1", mtInt, "f10", mtBool, "f2", mtInt),
+		mtObj("A", mtInt, "a", mtInt, "B", mtBool),
+		mtObj("a_b", mtInt, "a", mtInt, "ab", mtBool))
 	var t2 []*mtype
 	for _, t := range t1 {
 		if tier != "thorough" && t.K == tObj && len(t.FNames) == 2 && !(t.FTypes[0] == mtInt) {
@@ -946,13 +954,8 @@ func c13Display(tier string, idx int, r *Result) {
 		if dv == dt {
 			continue
 		}
-		// objects enumerate their fields in map order: equal up to a permutation both sides
-		// could have produced?
-		set := displays(v)
-		if v.hasWideObject() && inSet(dv, set) && inSet(dt, set) {
-			r.Note("display-equal-up-to-field-order", 1)
-			continue
-		}
+		// (both libraries render objects in one defined field order since the display-order fix:
+		// no tolerance for permutations)
 		fail("DISPLAY:libraries-differ", fmt.Sprintf("runtime/value renders %q, interpreter/value renders %q", dv, dt))
 	}
 	r.Trans(2 * n)
